@@ -143,7 +143,7 @@ def run(tier: str) -> int:
         progs = r.json_tagged("P")
         if not progs:
             raise core.MachineryError("generator produced no program")
-        rep.extra.setdefault("programs", {})[fam] = len(progs)
+        rep.extra.setdefault("programs_by_family", {})[fam] = len(progs)
         for p in progs:
             if fam == "misc":
                 excs, rexc = run_misc(p["prog"])
